@@ -9,10 +9,11 @@ for mf in sorted(glob.glob('/verif/seeded/C*/*/meta.json')):
     first = hist[0] if hist else m["check"]
     first_ok = first.get("rc") == 1 and first.get("violations", 0) > 0
     r = rounds.setdefault(name.split('_')[0], [0, 0, 0])
-    r[0] += 1; r[1] += 1 if first_ok else 0; r[2] += 1 if m.get("detected") else 0
+    r[0] += 1; r[1] += 1 if (first_ok and not m.get("anticipated")) else 0; r[2] += 1 if m.get("detected") else 0
     summ = re.sub(r'\s+', ' ', m.get("summary", "")).replace('|', '/')[:110]
     rows.append("| %s | %s | %s | %s | %s | %s |" % (pid, name, summ, m["check"]["cmd"].replace(" --tier quick", "").replace(" --tier thorough", " (thorough)"),
-                                                 "yes" if m.get("detected") else "NO", "" if first_ok else "missed at first"))
+                                                 "yes" if m.get("detected") else "NO",
+                                                 "anticipated from the summary" if m.get("anticipated") else ("" if first_ok else "missed at first")))
 head = "| property | mutation | what it changes | caught by | detected | note |\n|---|---|---|---|---|---|\n"
 s = open('/verif/DESIGN.md').read()
 a = s.index("| property | mutation | what it changes")
